@@ -402,7 +402,7 @@ func c11Rename(c *Ctx, idx int) {
 func init() {
 	Register(&Property{
 		ID:            "C11",
-		Rule:          "strings over an alphabet of 1- to 4-byte code points, combining marks, U+FFFD, U+10FFFF and the empty string (length 0..6, some up to 200, some of 4000-9000 code points with the needle placed around offsets 1365, 2048, 4096 and 8191, and strings of one encoded width only - 1, 2, 3 or 4 bytes - or two widths, at lengths 15..257 around the usual block sizes): every position parameter over [-len-2, len+2] and +-2^31/2^62 through slices, find_first/find_last (2-4 arguments), pad_left/pad_right (pad characters of every width; widths up to 130, and widths of 2^18 .. 2^20+1 whose results are 0.3-4.4 MB), split on '' and on substrings with counts, replace with counts, plus length/reverse/join/trim/contains/starts_with/ends_with/sort/min/max(_by) incl. pairs ordered differently by UTF-16 unit and by code point - compared with the reference model on code points; every string in every result checked for UTF-8 validity; renaming relation: a-z mapped order-preservingly to 2-, 3- and 4-byte letters in expression and data must rename the result the same way (library against itself); non-trivial = model decides (positions/order), result contains renamed letters (renaming); case-mapping stream: lower/upper of every code point that has a case mapping (alone and between other characters) must be valid UTF-8 and measure consistently under length / split / reverse; composition stream: 20 forms applying a second string operation (negative slice bounds, length, reverse, find_*, pad, split, comparison, case) to prefixes and suffixes of subjects of 100..20000 code points within one evaluation, against the model",
+		Rule:          "strings over an alphabet of 1- to 4-byte code points, combining marks, U+FFFD, U+10FFFF and the empty string (length 0..6, some up to 200, some of 4000-9000 code points with the needle placed around offsets 1365, 2048, 4096 and 8191, and strings of one encoded width only - 1, 2, 3 or 4 bytes - or two widths, at lengths 15..257 around the usual block sizes): every position parameter over [-len-2, len+2] and +-2^31/2^62 through slices, find_first/find_last (2-4 arguments), pad_left/pad_right (pad characters of every width; widths up to 130, and widths of 2^18 .. 2^20+1 whose results are 0.3-4.4 MB), split on '' and on substrings with counts, replace with counts, plus length/reverse/join/trim/contains/starts_with/ends_with/sort/min/max(_by) incl. pairs ordered differently by UTF-16 unit and by code point - compared with the reference model on code points; every string in every result checked for UTF-8 validity; renaming relation: a-z mapped order-preservingly to 2-, 3- and 4-byte letters in expression and data must rename the result the same way (library against itself); non-trivial = model decides (positions/order), result contains renamed letters (renaming); case-mapping stream: lower/upper of every code point that has a case mapping (alone and between other characters) must be valid UTF-8 and measure consistently under length / split / reverse; composition stream: 20 forms applying a second string operation (negative slice bounds, length, reverse, find_*, pad, split, comparison, case) to prefixes and suffixes of subjects of 100..20000 code points within one evaluation, against the model; rename-directed stream: ~400 (subject, needle) pairs over {a, b, c} (every subject of 0..4 letters, longer periodic ones) x 67 forms whose counts, windows and widths are written relative to length(s) (split on '' and on needles with counts reaching the end, replace with counts, find windows ending at the last character, pads, trims, slices, ordering): the answer for 2-, 3- and 4-byte letters must be the renamed answer for ASCII letters (library against itself, also where the model abstains)",
 		MinNontrivial: 5000,
 		Streams: []Stream{
 			{Name: "positions", N: func(c *Ctx) int { return tierN(c, 1500, 100000) }, Run: c11Positions},
@@ -410,6 +410,7 @@ func init() {
 			{Name: "composition", N: func(c *Ctx) int { return tierN(c, 400, 20000) }, Run: c11Composition},
 			{Name: "order", N: func(c *Ctx) int { return tierN(c, 3000, 60000) }, Run: c11Order},
 			{Name: "rename", N: func(c *Ctx) int { return tierN(c, 20000, 4000000) }, Run: c11Rename},
+			{Name: "rename-directed", N: c11RelN, Run: c11Rel, Exhaustive: true},
 		},
 	})
 }
